@@ -35,7 +35,8 @@ D = {
     '.motion': ms.pattern(C0, O0, _name('motion', lambda n: n == 'motion'), A0),
     '.frame': ms.pattern(C0, O0, _name('frame', lambda n: n == 'frame'), A0),
     '.configure': ms.pattern(C0, O0, _name('configure', lambda n: n == 'configure'), A0),
-    'B:': lambda m: m.conn == 'B',
+    'B:': lambda m: None if m.orphan else m.conn == 'B',
+    'B: .commit': ms.pattern(('B:', lambda c: c == 'B'), O0, _name('commit', lambda n: n == 'commit'), A0),
     '(x=0)': ms.pattern(C0, O0, N0, ('(x=0)', ms.argl([ms.a_and(ms.a_named('x'), ms.a_int(0))]))),
     '[wl_surface, wl_seat].[commit, capabilities]': ms.pattern(
         C0, _obj('', lambda o: o[0] in ('wl_surface', 'wl_seat')), _name('', lambda n: n in ('commit', 'capabilities')), A0),
